@@ -2,7 +2,7 @@ import gfapy
 
 class Other:
 
-  def other_oriented_segment(self, oriented_segment):
+  def other_oriented_segment(self, oriented_segment, tolerant = False):
     """The other oriented segment.
 
     Parameters:
@@ -18,6 +18,8 @@ class Other:
       return self.sid2
     elif (self.sid2 == oriented_segment):
       return self.sid1
+    elif tolerant:
+      return None
     else:
       raise gfapy.NotFoundError(
           "Oriented segment '{}' not found\n".format(oriented_segment) +
